@@ -24,6 +24,8 @@ if r.returncode:
     if r.returncode:
         print("APPLY-FAILED", r.stderr[:300]); sys.exit(2)
 res = {"dir": str(d), "property": pid}
+_ev = V / "evidence" / f"{pid}.json"
+_ev_saved = _ev.read_bytes() if _ev.exists() else None  # evidence must describe the unchanged tree: restore it afterwards
 try:
     pyx = ".pyx" in patch.read_text()
     if (d / "demo.py").exists():
@@ -40,4 +42,6 @@ try:
 finally:
     subprocess.run(["git", "-C", REPO, "apply", "-R", "--whitespace=nowarn", str(patch)], capture_output=True)
     subprocess.run(["git", "-C", REPO, "checkout", "--", "."], check=True)
+    if _ev_saved is not None:
+        _ev.write_bytes(_ev_saved)
 print(json.dumps(res, indent=1))
